@@ -1,8 +1,9 @@
 import ScrutModel.Model.Template
 import ScrutModel.Model.Divider
 import ScrutModel.Model.Crlf
+import ScrutModel.Model.StripAnsi
 import Driver.Util
-/-! C13 ops: `replace`, `render`, `crlf`, `rout`, `execall`, `compile`, `rmdiv`, `bash`, `unmodelled`. -/
+/-! C13 ops: `replace`, `render`, `crlf`, `rout`, `strip`, `execall`, `compile`, `rmdiv`, `bash`, `unmodelled`. -/
 open Scrut Scrut.Template Scrut.Divider Scrut.Crlf
 namespace Driver.TplOps
 /-- hex of UTF-8 text → characters -/
@@ -47,19 +48,26 @@ def opCrlf (args : List String) : String :=
 def optBool (s : String) : Option (Option Bool) :=
   if s == "-" then some none else (bool01 s).map some
 
-/-- `rout <keep_crlf> <strip_ansi> <bytes>`: the third-party stripper is a parameter; it is
-instantiated with a tagging function, so the output shows what it was applied to -/
+/-- `rout <keep_crlf> <strip_ansi> <bytes>`: `TestCase::render_output` with scrut's own stripper
+(`strip_ansi_sequences_bytes`, `Model/StripAnsi.lean`) -/
 def opRout (args : List String) : String :=
   match args with
   | [k, s, b] =>
     match optBool k, optBool s, unhex b with
     | some k, some s, some b =>
-      -- tag = prefix byte 0xff (never produced by hex of real data in this position)
-      match renderOutput k s (fun x => some (255 :: x)) b with
-      | some (255 :: x) => if s == some true then "strip:" ++ hex x else hex (255 :: x)
+      match renderOutput k s (fun x => some (Scrut.StripAnsi.strip x)) b with
       | some x => hex x
       | none => "crash"
     | _, _, _ => "bad-op"
+  | _ => "bad-op"
+
+/-- `strip <bytes>`: `strip_ansi_sequences_bytes` -/
+def opStrip (args : List String) : String :=
+  match args with
+  | [b] =>
+    match unhex b with
+    | some b => hex (Scrut.StripAnsi.strip b)
+    | none => "bad-op"
   | _ => "bad-op"
 
 def showOut (o : Out) : String := s!"{hex o.stdout}:{hex o.stderr}:{o.code}"
